@@ -25,4 +25,4 @@ for id in $IDS; do
 done
 echo "caught by:${caught:- (none)}"
 git -C "$W" checkout -q -- . && git -C "$W" clean -qfd
-rm -rf .scratch
+# scratch output accumulates under .scratch (several seedtests may run at once); remove it by hand
